@@ -515,28 +515,38 @@ class TransactionEncode:
             yield encoder(["version",4])
 
         for item in transactions:
-            if item[0] == "T0":
-                yield encoder(['experiment', item[1]])
+            try:
+                line = self._encode(item,encoder)
+            except Exception as e:
+                #an item that can't be encoded only loses that item. It shouldn't abort
+                #the experiment (and with it every result that hasn't been written yet).
+                CobaContext.logger.log(e)
+            else:
+                if line is not None: yield line
 
-            elif item[0] == "T1":
-                yield encoder(["E", item[1], item[2]])
+    def _encode(self, item, encoder) -> Optional[str]:
+        if item[0] == "T0":
+            return encoder(['experiment', item[1]])
 
-            elif item[0] == "T2":
-                yield encoder(["L", item[1], item[2]])
+        elif item[0] == "T1":
+            return encoder(["E", item[1], item[2]])
 
-            elif item[0] == "T3":
-                yield encoder(["V", item[1], item[2]])
+        elif item[0] == "T2":
+            return encoder(["L", item[1], item[2]])
 
-            elif item[0] == "T4":
-                rows_T = collections.defaultdict(list)
+        elif item[0] == "T3":
+            return encoder(["V", item[1], item[2]])
 
-                keys = sorted(set().union(*[r.keys() for r in item[2]]),key=str)
+        elif item[0] == "T4":
+            rows_T = collections.defaultdict(list)
 
-                for row in item[2]:
-                    for key in keys:
-                        rows_T[str(key)].append(row.get(key,None))
+            keys = sorted(set().union(*[r.keys() for r in item[2]]),key=str)
 
-                yield encoder(["I", item[1], { "_packed": rows_T }])
+            for row in item[2]:
+                for key in keys:
+                    rows_T[str(key)].append(row.get(key,None))
+
+            return encoder(["I", item[1], { "_packed": rows_T }])
 
 class TransactionResult:
     def filter(self, transactions:Iterable[Any]) -> 'Result':
